@@ -1,6 +1,8 @@
 package gateway
 
 import (
+	"strings"
+
 	hydrapb "github.com/hydraide/hydraide/sdk/go/hydraidego/v3/hydraidepbgo"
 )
 
@@ -146,7 +148,7 @@ func indexableHint(f *hydrapb.TreasureFilter) (BucketHint, bool) {
 		return BucketHint{}, false
 	}
 	path := f.GetBytesFieldPath()
-	if path == "" {
+	if path == "" || !isPlainFieldPath(path) {
 		return BucketHint{}, false
 	}
 	switch f.GetOperator() {
@@ -185,6 +187,19 @@ func indexableHint(f *hydrapb.TreasureFilter) (BucketHint, bool) {
 		return BucketHint{FieldPath: path, Op: HintIn, Values: vals}, true
 	}
 	return BucketHint{}, false
+}
+
+// isPlainFieldPath is false for paths that use the filter evaluator's
+// special segments: the "[*]" any-match wildcard and the "#len" pseudo
+// field. The bucket indexes plain dotted paths only (it would look those
+// segments up as literal map keys), so such legs stay on the bypass route.
+func isPlainFieldPath(path string) bool {
+	for _, part := range strings.Split(path, ".") {
+		if part == "#len" || strings.HasSuffix(part, "[*]") {
+			return false
+		}
+	}
+	return true
 }
 
 // compareValueToAny pulls the set field of the CompareValue oneof and
